@@ -350,6 +350,7 @@ ARGS_LOOP:
 		if optPair, is := isOption(iterator.Value(), mode, false); is {
 
 			// iterate over the possible cli args and try matching against expectations
+			passedThrough := false // the token is passed to the remaining array only once
 			for _, p := range optPair {
 				// handle full option match
 				optionMatches := getAliasNameFromPartialEntry(currentProgramNode, p.Option)
@@ -370,7 +371,10 @@ ARGS_LOOP:
 
 					switch currentProgramNode.unknownMode {
 					case Pass, Warn:
-						currentProgramNode.ChildText = append(currentProgramNode.ChildText, iterator.Value())
+						if !passedThrough {
+							currentProgramNode.ChildText = append(currentProgramNode.ChildText, iterator.Value())
+							passedThrough = true
+						}
 					}
 					continue
 				}
